@@ -79,6 +79,13 @@ class CallMixin:
         st.assume(z3.ForAll([x], z3.Implies(z3.Select(s.t[0], x),
                   z3.And(0 <= idx(x), idx(x) < n, z3.Select(arr, idx(x)) == x)),
                   patterns=[z3.Select(s.t[0], x)]))
+        src_list = getattr(orig, "from_list", None)
+        if src_list is not None:
+            # set(xs): every xs[k] is enumerated - stated over the list term, which is what proofs have in hand
+            k = z3.Int(fresh_name("pk"))
+            xk = z3.Select(src_list.t[1], k)
+            st.assume(z3.ForAll([k], z3.Implies(z3.And(0 <= k, k < src_list.t[0]),
+                      z3.And(0 <= idx(xk), idx(xk) < n, z3.Select(arr, idx(xk)) == xk)), patterns=[xk]))
         if not orig.t[0].eq(s.t[0]):
             # the same fact stated over the set AS BUILT (e.g. `a[x] and b[x]` for an intersection): membership facts
             # derived before the set got its name then reach the enumeration without array extensionality
@@ -643,8 +650,10 @@ class CallMixin:
                     return [(st, v)]
                 if isinstance(v, Val) and isinstance(v.sort, ListSort):
                     i = z3.Int(fresh_name("li"))
-                    return [(st, set_lambda(v.sort.elem, lambda y: z3.Exists(
-                        [i], z3.And(0 <= i, i < v.t[0], z3.Select(v.t[1], i) == y))))]
+                    r_ = set_lambda(v.sort.elem, lambda y: z3.Exists(
+                        [i], z3.And(0 <= i, i < v.t[0], z3.Select(v.t[1], i) == y)))
+                    r_.from_list = v            # remembered for set_enumeration: every list element is a member
+                    return [(st, r_)]
             raise Unsupported(node, f"{name}({v!r})")
         if name == "sorted":
             if isinstance(a0, ast.GeneratorExp):
